@@ -118,7 +118,7 @@ MAXN = 6000          # dense references only up to this many elements
 TT_FAMILIES = ['generic', 'generic', 'int', 'int', 'const', 'const2', 'pos',
     'neg', 'shift', 'shift', 'rank1', 'rank1', 'rank1', 'rank1int',
     'rank1pad', 'overrank', 'deficient', 'mode1', 'd2', 'scaled', 'zero',
-    'tiny', 'huge']
+    'tiny', 'huge', 'intdtype', 'intdtype']
 QTT_FAMILIES = ['generic', 'generic', 'int', 'const', 'pos', 'shift',
     'rank1', 'rank1', 'rank1int', 'overrank', 'zero', 'smooth', 'smooth']
 FUNC_FAMILIES = ['generic', 'generic', 'generic', 'int', 'decay', 'mode1',
@@ -308,6 +308,14 @@ def make_tensor(rng, family, maxN, n=None):
                 G = G + rng.normal(size=(r[k], 1, r[k + 1])) * \
                     (t ** 2)[None, :, None]
             Y.append(G)
+    elif family == 'intdtype':
+        # hand-built count / indicator tensors: cores of INTEGER dtype, all
+        # entries of one sign or mixed (converted below)
+        lo = 0 if rng.random() < 0.6 else -2
+        Y = [rng.integers(lo, 4, size=G.shape).astype(float)
+            for G in gen.cores(rng, n, r, 'normal')]
+        for G in Y:                       # no all-zero slices by accident
+            G[G == 0] = 1. if rng.random() < 0.7 else 0.
     elif family == 'zero':
         Y = gen.cores(rng, n, r, 'normal')
         Y[int(rng.integers(d))] *= 0.
@@ -315,6 +323,8 @@ def make_tensor(rng, family, maxN, n=None):
     else:
         raise ValueError(family)
     Y = [np.ascontiguousarray(G, dtype=float) for G in Y]
+    if family == 'intdtype':
+        Y = [G.astype([np.int64, np.int32][int(rng.integers(2))]) for G in Y]
     meta['n'] = [int(x) for x in n]
     meta['r'] = ref.ranks_of(Y)
     return Y, meta
@@ -350,7 +360,7 @@ class Info:
     def __init__(self, Y, rank1=False):
         self.Y = Y
         self.usable = False
-        self.why = ref.wellformed(Y, finite=False)
+        self.why = ref.wellformed(Y, finite=False, ints=True)
         if self.why is not None:
             return
         if not all(np.all(np.isfinite(G)) for G in Y):
